@@ -8,7 +8,8 @@
    This file holds statements only; proofs are in Meta/MetaFacts.v. *)
 From Coq Require Import String List Arith NArith Bool Lia Permutation.
 Import ListNotations.
-Require Import Show Names SpecModel VMeaning MetaTable MetaSpecTable MetaBase MetaModel MetaFacts.
+Require Import Show Names SpecModel VMeaning MetaTable MetaSpecTable MetaBase MetaShow MetaModel MetaFacts.
+Require Import MetaModel3 MetaFacts3 MetaModels MetaFinal3 EmailModel MetaEmailModel MetaEmailFacts MetaHeap MetaHeapFacts.
 Open Scope N_scope.
 
 (* 0. the table extracted from the working tree on this run is the core-metadata specification table
@@ -137,3 +138,202 @@ Proof.
   split; [apply well_typed_b_ok; vm_compute; reflexivity|]. split; [apply well_typed_b_ok; vm_compute; reflexivity|].
   split; [eexists; split; vm_compute; reflexivity | vm_compute; reflexivity].
 Qed.
+
+
+(* ====================================================================================================================================
+   PART II - the model the correspondence check runs since the improvement round: Meta/MetaModel3.v.
+   The components answer  OAcc r | ORej | ORaise e  (three-valued oracles [O : oracles3]); a converter turns ORej into InvalidMetadata and
+   lets ORaise e escape (Crash e / FCrash e); reading a name that is not a field is an AttributeError; from_raw iterates
+   sorted(fields_to_check) ([from_raw3 = from_raw3_ord sort_s]; the theorems hold for every order).  [two O] is the two-valued
+   reading of an oracle table; the theorems of part I are about  from_raw_ord ord (two O)  and transfer through C17_bridge.
+   The TRUSTED ASSUMPTION of the property statement - a component raises nothing but its documented exception - is the explicit
+   hypothesis [documented_on O data] (on the values of this dict) / [documented O] (on every string). *)
+
+(* 8. the bridge: either a component that the validation reaches raises something undocumented, and exactly that escapes from from_raw;
+      or none does, and the three-valued model IS the model of part I *)
+Theorem C17_bridge O data ord : (forall l, Permutation (ord l) l) ->
+  if escapes3 O data then exists c k, from_raw3_ord ord O true data = FCrash c /\ reached O data k /\ attr3 O data k = Crash c
+  else from_raw3_ord ord O true data = from_raw_ord ord (two O) true data.
+Proof. apply from_raw3_ord_spec. Qed.
+Print Assumptions C17_bridge.
+Theorem C17_run_order_is_a_permutation l : Permutation (sort_s l) l.
+Proof. apply sort_s_perm. Qed.
+Print Assumptions C17_run_order_is_a_permutation.
+Theorem C17_documented_assumption O data : (documented O -> documented_on O data) /\ (well_typed data -> documented_on O data -> escapes3 O data = false).
+Proof. split; [apply documented_all | apply documented_no_escape]. Qed.
+Print Assumptions C17_documented_assumption.
+
+(* 9. clause 1 on the run model, with the trusted assumption visible *)
+Theorem C17_accept_iff3 O data ord : well_typed data -> documented_on O data -> (forall l, Permutation (ord l) l) ->
+  ((exists s, from_raw3_ord ord O true data = FOk s) <->
+     version_known data /\ value_ok3 O data k_name /\ value_ok3 O data k_version /\
+     forall k, In k (map fst data) -> is_field k = true /\ ~ newer3 O data k /\ value_ok3 O data k).
+Proof. apply accept_iff3. Qed.
+Print Assumptions C17_accept_iff3.
+Theorem C17_reject_group3 O data ord : well_typed data -> documented_on O data -> (forall l, Permutation (ord l) l) -> errors3 O data <> [] ->
+  exists es, from_raw3_ord ord O true data = FGroup es /\ Permutation es (errors3 O data).
+Proof. apply reject_group3. Qed.
+Print Assumptions C17_reject_group3.
+(* 9b. WITHOUT the assumption: success, or one non-empty group, or an escaping exception - the last exactly when a component behind a
+       field that the validation reaches (present, known, not newer than the declared version) raises; the escaping exception is that one *)
+Theorem C17_outcome3 O data ord : well_typed data -> (forall l, Permutation (ord l) l) ->
+  (escapes3 O data = false /\ ((exists s, from_raw3_ord ord O true data = FOk s) \/ (exists es, es <> [] /\ from_raw3_ord ord O true data = FGroup es))) \/
+  (escapes3 O data = true /\ exists c k, from_raw3_ord ord O true data = FCrash c /\ reached O data k /\ is_field k = true /\ raised_in O k (lookup k data) c).
+Proof. apply outcome3. Qed.
+Print Assumptions C17_outcome3.
+Theorem C17_escape_iff3 O data ord : well_typed data -> (forall l, Permutation (ord l) l) ->
+  ((exists c, from_raw3_ord ord O true data = FCrash c) <-> exists k c, reached O data k /\ is_field k = true /\ raised_in O k (lookup k data) c).
+Proof. apply escape_iff3. Qed.
+Print Assumptions C17_escape_iff3.
+(* Requires-Dist: the entries are converted in order; the first one that is not accepted decides *)
+Theorem C17_requires_dist_first_failure O l e : req_all O l = ORaise e <->
+  exists pre x post, l = pre ++ x :: post /\ (forall y, In y pre -> exists a, o3_req O y = OAcc a) /\ o3_req O x = ORaise e.
+Proof. apply req_all_raise. Qed.
+Print Assumptions C17_requires_dist_first_failure.
+
+(* 10. "individually valid" for Requires-Python, Requires-Dist and License-Expression MEANS the grammars of C05/C06, C08 and C19: the
+       oracles instantiated with the models of those properties ([O_models]; the e-mail header parser and pathlib stay parameters) *)
+Theorem C17_accept_iff_models ctype path data ord : let OM := O_models ctype path in
+  well_typed data -> documented_on OM data -> (forall l, Permutation (ord l) l) ->
+  ((exists s, from_raw3_ord ord OM true data = FOk s) <->
+     version_known data /\ value_ok3 OM data k_name /\ value_ok3 OM data k_version /\
+     forall k, In k (map fst data) -> is_field k = true /\ ~ newer3 OM data k /\ value_ok3 OM data k).
+Proof. intros OM. apply accept_iff3. Qed.
+Print Assumptions C17_accept_iff_models.
+Theorem C17_models_validity ctype path data e : let OM := O_models ctype path in
+  (forall s, lookup k_requires_python data = Some (VStr s) ->
+     (compute3 OM k_requires_python (lookup k_requires_python data) = Ok e <-> exists ss, SetsModel.SpecifierSet s None = Some ss /\ e = EStr (SetsModel.set_str ss))) /\
+  (forall l, lookup k_requires_dist data = Some (VList l) ->
+     (compute3 OM k_requires_dist (lookup k_requires_dist data) = Ok e <->
+      exists rs, map ReqModel.Requirement l = map ReqModel.RqOk rs /\ e = EList (map ReqModel.req_str rs))) /\
+  (forall s, lookup k_license_expression data = Some (VStr s) ->
+     (compute3 OM k_license_expression (lookup k_license_expression data) = Ok e <-> exists t, LicTop.canonicalize_license_expression s = LicModel.Ok t /\ e = EStr t)).
+Proof.
+  intros OM. split; [|split].
+  - intros s L. now apply models_requires_python.
+  - intros l L. now apply models_requires_dist.
+  - intros s L. now apply models_license_expression.
+Qed.
+Print Assumptions C17_models_validity.
+
+(* 11. MULTIPLICITY: over a dict (distinct keys) the group holds - besides at most one member for Metadata-Version - exactly ONE member per
+       offending key, named after it ([name_of]: the header name of a field, the key itself otherwise) *)
+Theorem C17_errors_one_per_key O data : well_typed data -> NoDup (map fst data) ->
+  exists offs, NoDup offs /\ (forall k, In k offs <-> offending O data k) /\
+               errors O data = mv_errors O data ++ map name_of offs /\ (length (mv_errors O data) <= 1)%nat.
+Proof. intros W. apply errors_one_per_key. now apply well_typed_safe. Qed.
+Print Assumptions C17_errors_one_per_key.
+
+(* 12. attribute reads on the run model: any order, any number of times, every read returns what the first read of that attribute on a
+       fresh lazy instance returns ([attr3]: the conversion of the ORIGINAL value, the exception escaping from the component, or
+       AttributeError for a name that is not a field); also on a validated object *)
+Theorem C17_reads3_history_independent O data ks : reads3 O (init data) ks = map (attr3 O data) ks.
+Proof. apply reads3_history_independent. Qed.
+Print Assumptions C17_reads3_history_independent.
+Theorem C17_reads3_after_validation O data ord s ks : from_raw3_ord ord O true data = FOk s -> reads3 O s ks = map (attr3 O data) ks.
+Proof. apply accepted3_reads. Qed.
+Print Assumptions C17_reads3_after_validation.
+Theorem C17_attr3 O data k :
+  (is_field k = true -> attr3 O data k = compute3 O k (lookup k data)) /\ (is_field k = false -> attr3 O data k = Crash k_attribute_error) /\
+  (documented_on O data -> compute3 O k (lookup k data) = compute (two O) k (lookup k data)).
+Proof. split; [apply attr3_field | split; [apply attr3_nonfield | apply documented_compute]]. Qed.
+Print Assumptions C17_attr3.
+(* clause 4 restated on the fields only (C17_absent_is_none of part I also covers names that are not fields, where Python raises) *)
+Theorem C17_absent_field_is_none O data k : is_field k = true -> required k = false -> lookup k data = None -> reads3 O (init data) [k] = [Ok ENone].
+Proof. apply absent_field_is_none. Qed.
+Print Assumptions C17_absent_field_is_none.
+Theorem C17_nonfield_read_is_attribute_error O data k : is_field k = false -> reads3 O (init data) [k] = [Crash k_attribute_error].
+Proof. apply nonfield_read. Qed.
+Print Assumptions C17_nonfield_read_is_attribute_error.
+
+(* 13. from_email, for every iteration order of fields_to_check [ord] and any order [us] of the unparsed keys; then composed with the
+       C18 model of parse_email: for EVERY document (no typing hypothesis - parse_email's raw dict is always well typed) the result is
+       success, one non-empty group, or the exception of a component that the validation reaches *)
+Theorem C17_from_email3 O data ord us : (forall l, Permutation (ord l) l) -> well_typed data -> escapes3 O data = false ->
+  ((exists s, from_email3_ord ord O true data us = FOk s) <-> us = [] /\ errors3 O data = []) /\
+  (us ++ errors3 O data <> [] -> exists es, from_email3_ord ord O true data us = FGroup es /\ Permutation es (us ++ errors3 O data)) /\
+  from_email3_ord ord O false data us = FOk (init data).
+Proof.
+  intros P W E. destruct (from_email3_no_escape O data ord P us W E) as [A B]. split; [exact A | split; [exact B | reflexivity]].
+Qed.
+Print Assumptions C17_from_email3.
+Theorem C17_parse_email_output_is_well_typed items p : well_typed (conv_dict (fst (post_email items p))).
+Proof. apply parse_email_raw_well_typed. Qed.
+Print Assumptions C17_parse_email_output_is_well_typed.
+Theorem C17_from_email_doc_accept_or_group O items p ord : (forall l, Permutation (ord l) l) ->
+  (exists s, from_email_doc_ord ord O true items p = FOk s) \/
+  (exists es, es <> [] /\ from_email_doc_ord ord O true items p = FGroup es) \/
+  (exists c k, from_email_doc_ord ord O true items p = FCrash c /\ reached O (doc_data items p) k /\ is_field k = true /\
+               raised_in O k (lookup k (doc_data items p)) c).
+Proof. apply from_email_doc_outcome. Qed.
+Print Assumptions C17_from_email_doc_accept_or_group.
+Theorem C17_from_email_doc_accept_iff O items p ord : (forall l, Permutation (ord l) l) -> documented_on O (doc_data items p) ->
+  ((exists s, from_email_doc_ord ord O true items p = FOk s) <-> doc_unparsed items p = [] /\ errors3 O (doc_data items p) = []) /\
+  (doc_unparsed items p ++ errors3 O (doc_data items p) <> [] ->
+     exists es, from_email_doc_ord ord O true items p = FGroup es /\ Permutation es (doc_unparsed items p ++ errors3 O (doc_data items p))).
+Proof.
+  intros P D. pose proof (parse_email_raw_well_typed items p) as W.
+  exact (from_email3_no_escape O (doc_data items p) ord P (doc_unparsed items p) W (documented_no_escape O _ W D)).
+Qed.
+Print Assumptions C17_from_email_doc_accept_iff.
+
+(* non-vacuity of part II: a table in which Requirement raises RecursionError on one string; the dict whose Requires-Dist reaches it
+   escapes with exactly that; a rejected entry BEFORE it turns the escape into a group; the documented dict is accepted by the run model;
+   a non-field read is an AttributeError; the component models accept / reject / canonicalise concrete values *)
+Definition O3_ex : oracles3 :=
+  {| o3_specset := fun s => OAcc s;
+     o3_req := fun s => if seqb s (asc "deep") then ORaise (asc "RecursionError") else if seqb s (asc "a b") then ORej else OAcc s;
+     o3_lic := fun s => OAcc s; o3_ctype := fun s => OAcc (s, (None, None)); o3_path := fun _ => false |}.
+Definition mk_rd (l : list (list N)) := [(asc "metadata_version", VStr (asc "2.1")); (asc "name", VStr (asc "a")); (asc "version", VStr (asc "1")); (asc "requires_dist", VList l)].
+Definition part2_check : bool :=
+  match from_raw3 O3_ex true (mk_rd [asc "x"; asc "deep"]), from_raw3 O3_ex true (mk_rd [asc "a b"; asc "deep"]), from_raw3 O3_ex true (mk_rd [asc "x"]) with
+  | FCrash c, FGroup g, FOk s =>
+      seqb c (asc "RecursionError") && (length g =? 1)%nat && escapes3 O3_ex (mk_rd [asc "x"; asc "deep"]) && negb (escapes3 O3_ex (mk_rd [asc "a b"; asc "deep"])) &&
+      match reads3 O3_ex s [asc "bogus"; asc "author"] with [Crash a; Ok ENone] => seqb a k_attribute_error | _ => false end
+  | _, _, _ => false
+  end &&
+  match specset_model (asc ">=3, <4"), req_model (asc "A.b (>=1) ; os_name=='x'"), lic_model (asc "mit or apache-2.0"), lic_model (asc "MIT AND"), req_model (asc "a b") with
+  | OAcc s, OAcc r, OAcc l, ORej, ORej => seqb s (asc "<4,>=3") && seqb r (asc "A.b>=1; os_name == ""x""") && seqb l (asc "MIT OR Apache-2.0")
+  | _, _, _, _, _ => false
+  end.
+Example C17_part2_nonvacuous : part2_check = true.
+Proof. vm_compute. reflexivity. Qed.
+
+
+(* ====================================================================================================================================
+   PART III - "never modifies the caller's raw dict", in a model where it could be false: Meta/MetaHeap.v (run by the command m.heap).
+   Dicts and their values are heap objects; from_raw allocates a new dict object with the same entries (data.copy(): a SHALLOW copy, the
+   value objects stay shared); `del instance._raw[name]` mutates the dict object the instance refers to. *)
+
+(* 14. after from_raw and any sequence of attribute reads - the validation loop of from_raw(validate=True) is one - the caller's dict
+       object has the same entries and no value object of the heap has changed *)
+Theorem C17_caller_dict_untouched O w dl d ks : lookup dl (w_dicts w) = Some d ->
+  let '(w1, hi) := from_raw_h w dl in
+  let '(w', _, _) := hreads O w1 hi ks in
+  lookup dl (w_dicts w') = Some d /\ w_vals w' = w_vals w.
+Proof. apply caller_dict_untouched. Qed.
+Print Assumptions C17_caller_dict_untouched.
+(* 14b. the heap model refines the functional one: the reads give what [reads3] gives on the content of the caller's dict at construction *)
+Theorem C17_heap_refines_run_model O w d dl ks : (forall kl, In kl d -> exists v, lookup (snd kl) (w_vals w) = Some v) -> lookup dl (w_dicts w) = Some d ->
+  let '(w1, hi) := from_raw_h w dl in let '(_, _, rs) := hreads O w1 hi ks in rs = reads3 O (init (deref w d)) ks.
+Proof. intros C. now apply heap_refines_reads3. Qed.
+Print Assumptions C17_heap_refines_run_model.
+(* 14c. what the code does about sharing: the first read of a present field WITHOUT a converter returns the caller's own value object
+        (a later in-place change of it, by anyone, shows through the Metadata object); a field WITH a converter returns a new object
+        (no later change of the heap shows) *)
+Theorem C17_copy_is_shallow O w hi k d l v : lookup k (hi_cache hi) = None -> is_field k = true ->
+  lookup (hi_raw hi) (w_dicts w) = Some d -> lookup k d = Some l -> lookup l (w_vals w) = Some v ->
+  let '(_, hi', r) := hread O w hi k in
+  (converted k = false -> r = Ok (plain (Some v)) /\ lookup k (hi_cache hi') = Some (CRef l)) /\
+  (converted k = true -> forall e, r = Ok e -> lookup k (hi_cache hi') = Some (COwn e)).
+Proof. apply first_read_object. Qed.
+Print Assumptions C17_copy_is_shallow.
+Theorem C17_shared_and_own_objects O w w' hi k :
+  (forall l v', lookup k (hi_cache hi) = Some (CRef l) -> hread O (set_val w l v') hi k = (set_val w l v', hi, Ok (plain (Some v')))) /\
+  (forall e, lookup k (hi_cache hi) = Some (COwn e) -> hread O w' hi k = (w', hi, Ok e)).
+Proof. split; [intros l v'; apply shared_object_visible | intros e H; now apply (own_object_stable O w w' hi k e)]. Qed.
+Print Assumptions C17_shared_and_own_objects.
+(* non-vacuity: with the copy the caller keeps its keys, WITHOUT it (from_raw_nocopy) two reads delete two of them; a shared list changed
+   in place shows through the object, a converted one and a re-bound key do not *)
+Example C17_heap_nonvacuous : heap_check = true.
+Proof. exact heap_check_ok. Qed.
